@@ -441,6 +441,17 @@ def rule_c(ctx):
     brs = [b for b in branches(F, cn) if D.has_field(b.desc, 'stopped')]
     ok = bool(rm) and bool(brs) and all(all(x.bb not in cn.reachable_from(b.target(1)) for x in rm) for b in brs)
     ctx.check(ok, 'c', 'stopped_stream_not_taken_for_reading', cn, cn.where(), 'stopped -> ClosedStream, entry not removed', 'a stopped stream can be opened for reading')
+    # a refused read leaves the stream in the table: once the Recv has been taken out of `streams.recv`, Chunks::new can
+    # only succeed (the Chunks value owns it and finalize() puts it back / frees it).  Otherwise the refused operation
+    # destroys the stream: no terminal outcome is ever observed and its slot never stops counting.
+    errs = [c.bb for c in constructions(F, 'Result', 'Err', crate='quinn_proto') if c.body.id == cn.id] + \
+           [c.bb for c in cn.calls() if (c.f or '').endswith('FromResidual>::from_residual') or short(c.f or '').endswith('from_residual')]
+    ctx.floor('c', 'read_open_take_sites', len(rm), 1)
+    for x in rm:
+        after = cn.reachable_from(cn.succ[x.bb]) if cn.succ[x.bb] else set()
+        bad = [e for e in errs if e in after]
+        ctx.check(not bad, 'c', 'refused_read_leaves_stream_in_table', cn, x.where(), 'no error exit after the Recv left the stream table',
+                  'Chunks::new can still fail after it removed the stream from `streams.recv` (the Recv is dropped: the stream reports ClosedStream without a terminal outcome and its slot is never released)')
     nx = ctx.pfn('Chunks::next')
     freed = nx.calls_to('StreamsState::stream_recv_freed')
     ctx.floor('c', 'terminal_free_sites', len(freed), 2)
